@@ -361,7 +361,7 @@ def lattice(res: Result, pending: list[Any]) -> None:
             op: dict[str, Any] = {"op": "keygen", "label": LA}
             if size != 2048:
                 op["size"] = size
-            for cfgname in ["empty"] + ["next:" + x for x in NEXT_RELS]:
+            for cfgname in ["empty"] + ["next:" + x for x in NEXT_RELS] + ["next:plain@13", "next:revoked@10", "next:revoked@14", "next:plain+128@13"]:
                 ctx = {"layout": state["name"], "initial": {"mods": state["mods"], "pool": state["pool"], "name": state["name"]}, "history": [], "op": op, "config": cfgname}
                 if cfgname.startswith("next:") and next_tag(cfgname, state, op) is None:
                     res.bump("lattice:configured-tag-would-be-0:not-configurable")
@@ -411,7 +411,7 @@ def next_tag(name: str, state: dict[str, Any], op: dict[str, Any] | None) -> int
     if tk is None:
         return None
     t257, t385, _ = rfc_tags(tk, 8)
-    m = re.fullmatch(r"next:(plain|revoked|second-entry-revoked)([+-]\d+)?", name)
+    m = re.fullmatch(r"next:(plain|revoked|second-entry-revoked)([+-]\d+)?", name.partition("@")[0])
     if m is None:
         raise KeyError(name)
     base = t257 if m.group(1) == "plain" else t385
@@ -435,6 +435,11 @@ def config(name: str, state: dict[str, Any], op: dict[str, Any] | None = None) -
     key = name + f"={dyn}|" + json.dumps(sorted(hsm))
     if key in _CFG:
         return _CFG[key]
+    # `<name>@<alg>`: the KSK entry that carries the colliding tag is configured with DNSSEC algorithm <alg> (a mixed
+    # configuration, as during an algorithm rollover); the property's collision clause speaks of "a configured KSK's tag",
+    # whatever that KSK's algorithm is.
+    name, _, kz_alg_s = name.partition("@")
+    kz_alg = int(kz_alg_s) if kz_alg_s else 8
     ka = key_of(KA)
     tagA, _, dsA = rfc_tags(ka, 8)
     p0 = rfc_tags(key_of(POOL[0]), 8)
@@ -475,18 +480,18 @@ def config(name: str, state: dict[str, Any], op: dict[str, Any] | None = None) -
     elif name == "B-pool0-good":
         ksk = {"kb": ent(LB, key_of(POOL[0]), tag=p0[0], ds=p0[2])}
     elif name == "collide257":
-        ksk = {"kz": ent("Kzzz", other, tag=p0[0])}
+        ksk = {"kz": ent("Kzzz", other, alg=kz_alg, tag=p0[0])}
     elif name == "collide385":
-        ksk = {"kz": ent("Kzzz", other, tag=p0[1])}
+        ksk = {"kz": ent("Kzzz", other, alg=kz_alg, tag=p0[1])}
     elif name == "collide-second":
-        ksk = {"ka": ent(LA, ka, tag=tagA, ds=dsA), "kz": ent("Kzzz", other, tag=p1[1])}
+        ksk = {"ka": ent(LA, ka, tag=tagA, ds=dsA), "kz": ent("Kzzz", other, alg=kz_alg, tag=p1[1])}
     elif name.startswith("next:"):
         if dyn is None:
             ksk = {}  # nothing will be handed out (no tag to relate to), or the tag would be 0 (not configurable)
         elif name == "next:second-entry-revoked":
-            ksk = {"ka": ent(LA, ka, tag=tagA, ds=dsA), "kz": ent("Kzzz", other, tag=dyn)}
+            ksk = {"ka": ent(LA, ka, tag=tagA, ds=dsA), "kz": ent("Kzzz", other, alg=kz_alg, tag=dyn)}
         else:
-            ksk = {"kz": ent("Kzzz", other, tag=dyn)}
+            ksk = {"kz": ent("Kzzz", other, alg=kz_alg, tag=dyn)}
     else:
         raise KeyError(name)
     cfg = C.make_config(hsm, ksk, {}, ksk_policy={"ttl": 172800})
@@ -498,7 +503,9 @@ def km_cfg_j(cfg: Any) -> dict[str, Any]:
     return {"ksks": [{"key": C.ksk_j(k), "description": k.description, "algName": k.algorithm.name} for k in cfg.ksk_keys.values()], "ttl": cfg.ksk_policy.ttl}
 
 
-KEYGEN_CFGS = ["empty", "collide257", "collide385", "collide-second", "A-good"] + ["next:" + x for x in NEXT_RELS]
+# `@<alg>`: the colliding KSK is configured with another DNSSEC algorithm than the one being generated (RSASHA512, ECDSA P-256/P-384)
+MIXED_ALG_CFGS = ["collide257@10", "collide385@13", "collide-second@14", "next:plain@13", "next:revoked@10", "next:second-entry-revoked@13", "next:plain+128@10", "next:revoked-1@13"]
+KEYGEN_CFGS = ["empty", "collide257", "collide385", "collide-second", "A-good"] + ["next:" + x for x in NEXT_RELS] + MIXED_ALG_CFGS
 INVENTORY_CFGS = ["empty", "A-good", "A-tagonly", "A-none", "A-badtag", "A-badds", "A-good-then-bad", "A-bad-then-good", "A-ec-alg", "B-pool0-good"]
 
 # --------------------------------------------------------------------------------------
